@@ -85,8 +85,13 @@ func poolReadersRevalidate(c *Ctx, filter func(*ir.Func) bool) {
 			}
 		}
 	}
-	for _, f := range methods {
-		if !exported(f) || (filter != nil && !filter(f)) {
+	for _, bf := range methods {
+		if !exported(bf) {
+			continue
+		}
+		// helpers and local closures expanded: a lock-and-revalidate bracket taking the read as a literal is the same code
+		f := r.view(bf)
+		if filter != nil && !filter(f) {
 			continue
 		}
 		g := f.Graph()
@@ -143,7 +148,7 @@ func poolReadersRevalidate(c *Ctx, filter func(*ir.Func) bool) {
 func c05r2(c *Ctx) {
 	pf := getPoolFields(c.P)
 	r := getChainRoles(c.P)
-	f := r.reorgTo
+	f := r.view(r.reorgTo)
 	g := f.Graph()
 	c.VisitGraph(f)
 	ob := c.Ob(f, "midstate-discarded-on-tip-change", f.Body.Pos())
@@ -161,30 +166,13 @@ func c05r3(c *Ctx) {
 	r := getChainRoles(c.P)
 	cauT := c.P.Named("consensus", "ApplyUpdate")
 	cruT := c.P.Named("consensus", "RevertUpdate")
-	csT := c.P.Named("consensus", "State")
-	poolUpdate := func(upd *types.Named) *ir.Func {
-		for _, f := range r.methods {
-			if exported(f) || f.Type.Params == nil || f.Type.Params.NumFields() != 2 {
-				continue
-			}
-			var ts []types.Type
-			for _, fld := range f.Type.Params.List {
-				for range fld.Names {
-					ts = append(ts, f.Info().TypeOf(fld.Type))
-				}
-			}
-			if len(ts) == 2 && types.Identical(ts[0], upd) && types.Identical(ts[1], csT) {
-				return f
-			}
-		}
-		return nil
-	}
+	poolUpdate := func(upd *types.Named) *ir.Func { return poolUpdateFn(r, upd) }
 	for _, spec := range []struct {
 		step  *ir.Func
 		store *types.Func
 		upd   *types.Named
 		what  string
-	}{{r.applyTip, r.storeApply, cauT, "apply"}, {r.revertTip, r.storeRevert, cruT, "revert"}} {
+	}{{r.view(r.applyTip), r.storeApply, cauT, "apply"}, {r.view(r.revertTip), r.storeRevert, cruT, "revert"}} {
 		f := spec.step
 		g := f.Graph()
 		c.VisitGraph(f)
@@ -231,7 +219,7 @@ func c05r4(c *Ctx) {
 	v2 := c.P.FuncObj("consensus", "ValidateV2Transaction")
 	a1 := c.P.Method("consensus", "MidState", "ApplyTransaction")
 	a2 := c.P.Method("consensus", "MidState", "ApplyV2Transaction")
-	for _, f := range c.P.MethodsOf("chain", "Manager") {
+	for _, f := range getChainRoles(c.P).methodsV {
 		g := f.Graph()
 		// registrations: m.txpool.indices[k] = v
 		var regs []*cfgx.Node
@@ -473,7 +461,7 @@ func isPointer(t types.Type) bool {
 // from full.
 func c05r8(c *Ctx) {
 	pf := getPoolFields(c.P)
-	f := revalidateFn(c, pf)
+	f := getChainRoles(c.P).view(revalidateFn(c, pf)) // helpers (also generic ones taking the admission test as a literal) expanded
 	g := f.Graph()
 	c.VisitGraph(f)
 	var adds, resets, others []*cfgx.Node
